@@ -45,6 +45,8 @@ def allocate_on_buffer(size, context=None, buffer=None, offset=None):
         # if offset is provided by the user we assume that we can write there
         # (as a python integer: field offsets are added to it)
         offset = int(offset)
+        if offset < 0:  # would count from the end of the storage
+            raise ValueError(f"`offset` {offset} is not inside {buffer}")
 
     return buffer, offset
 
